@@ -439,6 +439,130 @@ def enum_comma_correspondence(ctx, exe, sc, thorough):
     ctx.oblige("correspondence: enum_cleanup() model = binary on %d enum bodies x add/remove/force" % len(per_enum), bad == 0, "corr", "%d" % bad)
 
 
+def dup_include_correspondence(ctx, exe, sc, thorough):
+    """model of remove_duplicate_include() (DupInclude.lean) = the binary: every sequence of up to 5 directive events over
+    {#if, #else, #endif, #include "a.h", #include "b.h"} that starts with an #include or an #if (exhaustive), plus seeded longer
+    sequences with #elif and nesting; compared: which #include lines survive mod_remove_duplicate_include=true, in order.
+    Direct oracle besides (independent of the model): for EVERY assignment of the conditions, gcc -E style evaluation by hand --
+    the set of headers reached in the output equals the set reached in the input."""
+    import itertools
+    import random
+    EV = ["I", "L", "N", "ia", "ib"]
+    seqs = []
+    for n in range(1, 6):
+        for t in itertools.product(EV, repeat=n):
+            if t[0] in ("I", "ia"):
+                seqs.append(list(t))
+    r = random.Random("dupinc-%d" % (ctx.seed if thorough else ctx.seed % 4))
+    for _ in range(1500 if thorough else 300):
+        n, depth, t = r.randrange(6, 16), 0, []
+        for _ in range(n):
+            k = r.random()
+            if k < 0.45:
+                t.append(r.choice(["ia", "ia", "ib", "ic"]))
+            elif k < 0.65:
+                t.append("I"); depth += 1
+            elif k < 0.8:
+                t.append(r.choice(["L", "E"]) if (depth or r.random() < 0.1) else "ia")
+            else:
+                if depth or r.random() < 0.1:
+                    t.append("N"); depth = max(0, depth - 1)
+        t += ["N"] * depth
+        seqs.append(t)
+
+    def text_of(t):
+        lines, cond = [], 0
+        for j, e in enumerate(t):
+            if e == "I":
+                cond += 1; lines.append("#if C%d" % cond)
+            elif e == "L":
+                lines.append("#else")
+            elif e == "E":
+                cond += 1; lines.append("#elif C%d" % cond)
+            elif e == "N":
+                lines.append("#endif")
+            else:
+                lines.append('#include "%s.h"' % e[1:])
+            if j % 3 == 2:
+                lines.append("int v%d;" % j)
+        return "\n".join(lines) + "\n"
+
+    def reached(text):
+        """{assignment of taken branches (by line-free branch counter) -> frozenset of headers}: every #if/#elif/#else opens a branch
+        with a fresh number; a header is reached iff all enclosing branches are taken; all 2^k assignments when k <= 6"""
+        path, bid, incs = [], 0, []
+        for ln in text.split("\n"):
+            w = ln.split()
+            if not w or not w[0].startswith("#"):
+                continue
+            d = w[0][1:] or (w[1] if len(w) > 1 else "")
+            if d == "if":
+                bid += 1; path.append(bid)
+            elif d in ("else", "elif"):
+                if path:
+                    bid += 1; path[-1] = bid
+            elif d == "endif":
+                if path:
+                    path.pop()
+            elif d == "include":
+                incs.append((ln.split('"')[1], tuple(path)))
+        return incs, bid
+
+    cfg = sc.cfg(None, {"mod_remove_duplicate_include": "true"})
+
+    def one(t):
+        text = text_of(t)
+        pth = sc.write(text, ".c")
+        rr = subprocess.run([exe, "-q", "-c", cfg, "-l", "C", "-f", pth], stdout=subprocess.PIPE, stderr=subprocess.PIPE, timeout=60)
+        return text, rr.returncode, rr.stdout.decode("latin1")
+    res = common.pmap(one, seqs)
+    name_no = {"a": 1, "b": 2, "c": 3}
+    reqs = ["dupinc.run " + " ".join({"I": "I", "L": "L", "E": "L", "N": "N"}.get(e) or "i%d" % name_no[e[1:]] for e in t) for t in seqs]
+    ans = common.run_driver(reqs)
+    bad = sem_bad = refused = deleted = 0
+    for t, (text, rc, out), a in zip(seqs, res, ans):
+        ctx.case("dupinc:%s" % " ".join(t), nontrivial=(rc == 0))
+        if rc != 0:
+            refused += 1
+            continue
+        names = [e[1:] for e in t if e[0] == "i"]
+        flags = "" if a == "-" else a
+        want = [n for n, f in zip(names, flags) if f == "1"]
+        deleted += flags.count("0")
+        got = [ln.split('"')[1][:-2] for ln in out.split("\n") if ln.strip().startswith("#") and "include" in ln]
+        # direct oracle: same headers reached under every branch assignment
+        inc_in, k_in = reached(text)
+        inc_out, k_out = reached(out)
+        lost = None
+        if k_in == k_out and k_in <= 8:
+            for mask in range(1 << k_in):
+                tk = lambda p: all(mask >> (b - 1) & 1 for b in p)
+                a_in = {n for n, p in inc_in if tk(p)}
+                a_out = {n for n, p in inc_out if tk(p)}
+                if a_in != a_out:
+                    lost = (sorted(a_in - a_out), [b for b in range(1, k_in + 1) if mask >> (b - 1) & 1])
+                    break
+        if lost is not None:
+            sem_bad += 1
+            if sem_bad <= 2:
+                ctx.violation("mod_remove_duplicate_include: with the branches %s taken the input includes %s, the output does not "
+                              "(the deleted #include was not covered by a kept one in an enclosing branch)" % (lost[1], lost[0]),
+                              {"options": {"mod_remove_duplicate_include": "true"}, "input_text": text, "output_text": out, "lang": "C"},
+                              key=None, found_input=True)
+        if got != want:
+            bad += 1
+            if bad <= 2:
+                ctx.violation("remove_duplicate_include(): the binary keeps the #include lines %s, the model (DupInclude.lean) %s, for the events %s"
+                              % (got, want, " ".join(t)),
+                              {"options": {"mod_remove_duplicate_include": "true"}, "input_text": text, "output_text": out, "lang": "C",
+                               "theorem": "DupInc_same_headers_every_configuration is about the model; correspondence dupinc.run"},
+                              key=None, found_input=lost is not None)
+    ctx.oblige("correspondence: remove_duplicate_include() model = binary on %d directive sequences (%d refused by the binary, %d #include lines deleted)"
+               % (len(seqs), refused, deleted), bad == 0 and refused * 2 < len(seqs) and deleted > 100, "corr", "%d mismatches" % bad)
+    ctx.oblige("direct oracle: the same headers are reached under every assignment of the #if conditions before and after mod_remove_duplicate_include",
+               sem_bad == 0, "oracle", "%d failures" % sem_bad)
+
+
 def run(ctx):
     ctx.cov["rule"] = ("one case = one run of the hook build on (input, configuration): input = generated C/C++/Java program plus a fixed block of "
                        "constructs the mod_ options act on, or a corpus file; configuration = one mod_ option singly, a random combination of "
@@ -476,6 +600,13 @@ def run(ctx):
     common.lean_extra(ctx, "UncModel.Props.RemoveReturns", ["RmRet_only_trailing_return", "RmRet_old_removes_inner_return_witness"], namespace="Unc.RmRet")
     common.lean_extra(ctx, "UncModel.Props.EnumComma", ["EnumC_step_only_comma", "EnumC_step_keeps_preproc", "EnumC_step_insert_position", "EnumC_step_add_idem",
                                                          "EnumC_run_only_comma", "EnumC_old_edits_macro_body_witness"], namespace="Unc.EnumC")
+    common.lean_extra(ctx, "UncModel.Props.DupInclude", ["DupInc_deleted_is_covered", "DupInc_same_headers_every_configuration", "DupInc_first_kept",
+                                                          "DupInc_old_loses_header_witness"], namespace="Unc.DupInc")
+    try:
+        dup_include_correspondence(ctx, exe, sc, thorough)
+    except Exception as e:
+        import traceback
+        ctx.oblige("remove_duplicate_include correspondence ran", False, "internal", traceback.format_exc()[-1500:])
     try:
         enum_comma_correspondence(ctx, exe, sc, thorough)
     except Exception as e:
